@@ -68,3 +68,88 @@ Proof.
   split; [reflexivity|]. split; [vm_compute; reflexivity|]. split; [vm_compute; reflexivity|].
   eexists _, _. split; [vm_compute; reflexivity|]. vm_compute; reflexivity.
 Qed.
+
+(* ---- D26/D27: range conversion compressed runs that wrap around or whose span
+   does not fit the type (before the range_step_fits fix) ---------------------- *)
+(* the second loop: Some (skipped, num_common) *)
+Fixpoint run_loop_D26 (fuel : nat) (args : list av) (size : Z) (has_delta : bool) (delta : av)
+         (skipped nc : Z) : option (Z * Z) :=
+  match fuel with
+  | O => None
+  | S f =>
+      let cur := skipz skipped args in
+      let next := skipped + incsize cur in
+      let cmp_l := if has_delta
+                   then match cur with
+                        | c :: _ => match av_add c delta with Some a => Some [a] | None => None end
+                        | [] => None end
+                   else Some args in
+      if size <=? next then Some (next, nc + 1) else
+      match cmp_l with
+      | None => None
+      | Some l => match elem_eq l (skipz next args) with
+                  | None => None
+                  | Some true => run_loop_D26 f args size has_delta delta next (nc + 1)
+                  | Some false => Some (next, nc + 1)
+                  end
+      end
+  end.
+
+
+Definition range_convertible_D26 (ty : Z) : bool :=
+  (ty =? 99) || (ty =? 105) || (ty =? 104) || (ty =? 84) || (ty =? 70).
+
+(* rtosc_convert_to_range(arg, size, arg_out, opt) *)
+Definition convert_to_range_D26 (o : popts) (args : list av) (size : Z) : conv :=
+  if (size <? 5) || (hd_type args =? 45) || negb (compress o) then CNo else
+  let ty := hd_type args in
+  if count_common (length args) ty args 0 size 0 <? 5 then CNo else
+  match elem_eq args (skipz (incsize args) args) with
+  | None => CUnmod
+  | Some e =>
+      if negb e && negb (range_convertible_D26 ty) then CNo else
+      let dl := if e then Some VN   (* unused *)
+                else match args with
+                     | a0 :: a1 :: _ => av_sub a1 a0
+                     | _ => None end in
+      match dl with
+      | None => CUnmod
+      | Some delta =>
+          match run_loop_D26 (length args) args size (negb e) delta (incsize args) 1 with
+          | None => CUnmod
+          | Some (skipped, nc) =>
+              if nc <? 5 then CNo else
+              let hdz := if e then 0 else 1 in
+              let used := 1 + hdz + incsize args in
+              CYes (VRep nc hdz :: (if e then [] else [delta]) ++
+                    firstn (Z.to_nat (incsize args)) args ++ [VSpc (skipped - used - 1)]) skipped
+          end
+      end
+  end.
+
+(* ---- rtosc_print_arg_val ------------------------------------------------------- *)
+(* result: (text, returned count, cols_used, the line break went in front of
+   the text: the character before the buffer was overwritten with '\n' and the
+   text starts with the four blanks) *)
+Definition pres := option (str * Z * Z * bool).
+Definition pav_t := popts -> list av -> Z -> option av -> pres.
+
+
+Definition opts_c : popts := {| lossless := true; prec := 2; linelength := 80; compress := true |}.
+Definition wrap_run : list av :=
+  [VI 2147483645; VI 2147483646; VI 2147483647; VI (-2147483648); VI (-2147483647); VI (-2147483646)].
+Definition span_run : list av :=
+  map VI [-2147483648; -1610612736; -1073741824; -536870912; 0; 536870912; 1073741824; 1610612736].
+
+Lemma D26_witness :
+  (exists c, convert_to_range_D26 opts_c wrap_run 6 = CYes c 6) /\
+  convert_to_range opts_c wrap_run 6 = CNo /\
+  (exists c, convert_to_range_D26 opts_c span_run 8 = CYes c 8) /\
+  convert_to_range opts_c span_run 8 = CNo /\
+  (exists text w, print_arg_vals opts_c wrap_run 0 = Some (text, w) /\
+     scan_arg_vals no_oracle no_oracle text 6 = Ok (wrap_run, [])).
+Proof.
+  split; [eexists; vm_compute; reflexivity|]. split; [vm_compute; reflexivity|].
+  split; [eexists; vm_compute; reflexivity|]. split; [vm_compute; reflexivity|].
+  eexists _, _. split; [vm_compute; reflexivity|]. vm_compute. reflexivity.
+Qed.
